@@ -28,8 +28,8 @@ ASSUMPTIONS = [
     "key_ops is demanded for the operations the statement lists (sign, verify, RSA encrypt/decrypt, AES/GCM wrap/unwrap, PBES2 derive)",
 ]
 OCT_SIZES = [16, 20, 24, 32, 48, 64]
-KEY_KINDS = ["oct%d" % n for n in OCT_SIZES] + ["rsa1024", "rsa2047", "rsa2041", "rsa", "P-256", "P-384", "P-521", "secp256k1", "Ed25519", "Ed448", "X25519", "X448"]
-QUICK_KINDS = ["oct16", "oct24", "oct32", "oct64", "rsa1024", "rsa2047", "rsa", "P-256", "P-384", "P-521", "secp256k1", "Ed25519", "Ed448", "X25519", "X448"]
+KEY_KINDS = ["oct%d" % n for n in OCT_SIZES] + ["oct17t", "oct25t", "oct33t", "oct65t"] + ["rsa1024", "rsa2047", "rsa2041", "rsa", "P-256", "P-384", "P-521", "secp256k1", "Ed25519", "Ed448", "X25519", "X448"]
+QUICK_KINDS = ["oct16", "oct24", "oct32", "oct64", "oct17t", "oct33t", "rsa1024", "rsa2047", "rsa", "P-256", "P-384", "P-521", "secp256k1", "Ed25519", "Ed448", "X25519", "X448"]
 ALL_OPS = ["sign", "verify", "encrypt", "decrypt", "wrapKey", "unwrapKey", "deriveKey", "deriveBits"]
 DECL = [("none", {}), ("use-sig", {"use": "sig"}), ("use-enc", {"use": "enc"}), ("ops-empty-list", {"key_ops": []})] + [(f"ops-{o}", {"key_ops": [o]}) for o in ALL_OPS] + \
        [("ops-sign+verify", {"key_ops": ["sign", "verify"]}), ("ops-wrap+unwrap", {"key_ops": ["wrapKey", "unwrapKey"]}),
@@ -198,7 +198,7 @@ def careless_jwe(alg, enc, jwk, sender_jwk, plaintext):
 
 # further ways in which a key comes to declare something: a key the library generated with the declaration as its parameters, and a JWK handed over
 # as a read-only or wrapped mapping instead of a dict (refusing such a value at import is fine; taking it and forgetting what it declares is not)
-MORE_VIA = ["generated-with-parameters", "jwk-in-a-MappingProxyType", "jwk-in-a-UserDict"]
+MORE_VIA = ["generated-with-parameters", "jwk-in-a-MappingProxyType", "jwk-in-a-UserDict", "secret-given-as-text"]
 
 
 def other_sources(via, kind, jwk, base_src, decl, private, op):
@@ -213,6 +213,17 @@ def other_sources(via, kind, jwk, base_src, decl, private, op):
         if jwk["kty"] == "oct":
             return OctKey.generate_key(len(b64.dec(jwk["k"])) * 8, copy.deepcopy(decl))
         return cls.generate_key(jwk["crv"], copy.deepcopy(decl), private)
+    if via == "secret-given-as-text":
+        # an oct secret that is text, handed over as str with the parameters next to it: the key is the UTF-8 octets of that text, all of them
+        if jwk["kty"] != "oct":
+            return None
+        try:
+            text = b64.dec(jwk["k"]).decode("utf-8")
+        except UnicodeDecodeError:
+            return None
+        if not text.isprintable() and not text.rstrip("\r\n").isprintable():
+            return None
+        return OctKey.import_key(text, copy.deepcopy(decl))
     wrap = types.MappingProxyType if via.endswith("MappingProxyType") else collections.UserDict
     return cls.import_key(wrap({**base_src, **copy.deepcopy(decl)}))
 
